@@ -373,11 +373,10 @@ class JSON:
 
         # EOR messages have .nlris directly but no .announces/.withdraws
         if getattr(update_msg, 'IS_EOR', False):
-            # EOR message - use .nlris directly with original behavior
-            for nlri in update_msg.nlris:
-                nexthop_ip = getattr(nlri, 'nexthop', IP.NoNextHop)
-                nexthop_str = str(nexthop_ip) if nexthop_ip is not IP.NoNextHop else 'null'
-                plus.setdefault(nlri.family().afi_safi(), {}).setdefault(nexthop_str, []).append((nlri, nexthop_ip))
+            # the End-of-RIB pseudo route renders as the member "eor": {...}: it is the whole
+            # message, inside the announce list it is not JSON
+            if update_msg.nlris:
+                return {'message': self._json(f'{{ {self._nlri_to_json(update_msg.nlris[0])} }}')}
         else:
             # UpdateCollection - get nexthop from RoutedNLRI container
             for routed in update_msg.announces:
